@@ -298,6 +298,16 @@ func (db *SpanFile) scanFile() error {
 		// and mark the rest as free.
 		if magicNumber == 0 {
 			SpanLog("Marking rest of file as free space: span%v:%v/%v", offset, fileSize-offset, fileSize)
+			if !db.readOnly {
+				// Left behind by an interrupted file growth. Give the region a
+				// FREE header so that spans appended after it stay reachable.
+				freeSpan := make([]byte, 8)
+				binary.BigEndian.PutUint32(freeSpan[0:4], freeMagic)
+				binary.BigEndian.PutUint32(freeSpan[4:8], uint32(fileSize-offset))
+				if err := db.writeAt(freeSpan, uint64(offset)); err != nil {
+					return err
+				}
+			}
 			db.addFreeSpan(uint64(offset), uint64(fileSize-offset))
 			offset = fileSize
 			break
